@@ -14,6 +14,7 @@ from harness.core.ctx import PY, VERIF
 from harness.checks import tree_common as T
 
 ASSUMPTIONS = ["rename is atomic; a process crash loses no completed write (the operating system stays up)",
+               "every other session runs with each directory on a file system of its own: a rename across directories fails with EXDEV (a split directory may be a mount point); renames between siblings are unaffected",
                "shard file names (uuid4) are fresh", "TensorFlow's internal write pattern for TFRecord files is observed through its results, not modelled"]
 TRUSTED = ["modelled-not-verified: POSIX rename/fsync behaviour, CPython audit events as the observation of file-system effects"]
 
@@ -171,7 +172,8 @@ def run(ctx):
             before = disk_state(root, fid)
             arg = ctx.scratch / "c06.arg.json"; out = ctx.scratch / "c06.out.json"
             if out.exists(): out.unlink()
-            arg.write_text(json.dumps(dict(se, root=str(root), snap=str(snaps), base=base, uuid_base=10 * si)))
+            xdev = (ci + si) % 2 == 1          # every other session: each directory is a file system of its own (renames across directories fail)
+            arg.write_text(json.dumps(dict(se, root=str(root), snap=str(snaps), base=base, uuid_base=10 * si, xdev=xdev)))
             p = subprocess.run([PY, str(VERIF / "harness" / "checks" / "c06_writer.py"), str(arg), str(out)], capture_output=True, text=True, timeout=900)
             if not out.exists():
                 raise RuntimeError(f"writer child failed: {p.stderr[-800:]}")
@@ -179,6 +181,7 @@ def run(ctx):
             sessions_run += 1
             written = {int(k): v for k, v in res["written"].items()}
             sig = {"format": fmt, "session": se["kind"] + ":" + str(se.get("sub", "")), "continued": si > 0}
+            xdev_used = xdev
             if res["error"]:
                 ctx.report(dict(sig, kind="session-error"), f"session failed: {res['error']}", {"plan": sess, "session_index": si}); break
             # ---- abstraction first (the oracle below truncates files inside the snapshots)
@@ -192,6 +195,19 @@ def run(ctx):
                 if e["tag"] == "after-write":
                     allowed_so_far[e["split"]].append(e["ex"])
                 sd = snaps / f"{e['k']:05d}"
+                if e["tag"] == "open" and Path(e["path"]).name in ("shards_list.json", "dataset_info.json") and any(m in e["mode"] for m in "wxa+"):
+                    # a committed metadata file opened for writing in place: the instant after the open (file truncated) is a crash point
+                    torn = sd / e["path"]
+                    if torn.exists() and "a" not in e["mode"] and "+" not in e["mode"]:
+                        torn.write_bytes(b"")
+                    probs = recover(sd, committed, {s: list(written[s]) for s in written})
+                    nsnaps += 1
+                    if probs:
+                        ctx.report(dict(sig, kind="torn-metadata", at="open-for-writing"),
+                                   f"{fmt} crash point {e['k']}: {e['path']} is opened for writing in place (mode {e['mode']}); a crash right after the open leaves: {probs[0]}",
+                                   {"plan": sess, "session_index": si, "event": e, "xdev": xdev, "problems": probs[:5]})
+                        break
+                    continue
                 # examples whose write_example has returned, or is in progress, may or may not be visible; nothing else may
                 allowed = {s: list(written[s]) for s in written}
                 probs = recover(sd, committed, allowed)
